@@ -36,9 +36,15 @@ TrPick    == IsEvent("pick") /\ Pick(Ev.b, Ev.to)
                 /\ LET m == wire'[Ev.b][Ev.to][Len(wire'[Ev.b][Ev.to])] IN Ev.kind = m.kind /\ PayloadOK(Ev, m.p)
                 /\ ObsOK(Ev)
 TrDeliver == IsEvent("deliver")  /\ Deliver(Ev.b, Ev.to)    /\ ObsOK(Ev)
+(* {"e":"probe","b":..,"s":..,"fwd":[brokers that were sent a frame],"got":[[broker, copies received],..]}:
+   a real publish on broker b; at quiescence it must be forwarded to and received by exactly the brokers with a live
+   subscriber, one copy each *)
+TrProbe   == IsEvent("probe") /\ UNCHANGED gvars
+                /\ (Quiescent => /\ ToSet(Ev.fwd) = { p \in Others(Ev.b) : Ev.s \in loc[p] }
+                                 /\ ToSet(Ev.got) = { <<p, 1>> : p \in { q \in Brokers : Ev.s \in loc[q] } })
 
 TraceInit == GInit /\ l = 1 /\ MarkInit
-TraceNext == TrReset \/ TrSub \/ TrUnsub \/ TrPer \/ TrPick \/ TrDeliver
+TraceNext == TrReset \/ TrSub \/ TrUnsub \/ TrPer \/ TrPick \/ TrDeliver \/ TrProbe
 MarkC == Mark(l)
-TraceInv == RoutingAtQuiescence
+TraceInv == RoutingAtQuiescence /\ ForwardingAtQuiescence
 =============================================================================
